@@ -84,6 +84,14 @@ def gen_cases(tier):
                 pre = [["discover", 0, 3]] if disc else []
                 tail = [["set_keys", 0], ["get", 0, "sys"], ["reply", 0, "octets", 9]] if not disc else []
                 yield {"class": "same-octets", "cfgs": [cfg.describe()], "history": pre + length_sweep(2, 12) + tail}
+    # replies the agent padded itself: pad octets of value pad-size (Net-SNMP), zero, 0xff; every residue of the plaintext length
+    for auth, priv in combos:
+        cfg = Cfg("v3", auth=auth, priv=priv)
+        for how in ("size", "zero", "ff"):
+            h = []
+            for n in range(0, 17):
+                h += [["get", 0, "sys"], ["reply", 0, "octets", 20 + n, how]]
+            yield {"class": "agent-padding", "cfgs": [cfg.describe()], "history": h}
     # DES: authentic replies whose ciphertext is not a whole number of blocks (after a valid one has been decrypted)
     for auth in (1, 2):
         cfg = Cfg("v3", auth=auth, priv=1)
